@@ -9,6 +9,7 @@ import (
 	"encoding/json"
 	"errors"
 	"fmt"
+	"math"
 	"strconv"
 	"strings"
 
@@ -38,8 +39,12 @@ var tspWeights = map[string]func(i, j int) int{
 	"big":  func(i, j int) int { return []int{2147483647, -2147483647}[(i+j)%2] },
 	"huge": func(i, j int) int { return 1<<40 + i - j },
 	"asym": func(i, j int) int { return 10*i + j },
+	// the widest decimal forms an int can have (20 characters with the sign)
+	"extreme": func(i, j int) int {
+		return []int{math.MinInt64, math.MaxInt64, -1000000000000000000, -999999999999999999, math.MinInt64 + 1}[(i+2*j)%5]
+	},
 }
-var tspWeightNames = []string{"sum", "neg", "big", "huge", "asym"}
+var tspWeightNames = []string{"sum", "neg", "big", "huge", "asym", "extreme"}
 
 type planWriter struct {
 	p     tspPlan
@@ -119,12 +124,16 @@ func tspRun(c *Ctx, upto int, each func(i int, e tspEntry) int) (plans, weightSe
 		}
 		return each(i, tspEntry{p, traced})
 	}
+	over := func() bool { return upto >= 0 && i > upto } // replay: everything up to the last candidate has been executed
 	maxN := 6
 	if c.Thorough() {
 		maxN = 9
 	}
 	for n := 0; n <= maxN; n++ {
 		for _, wn := range tspWeightNames {
+			if over() {
+				return
+			}
 			if n > 6 && wn != "sum" && wn != "huge" {
 				continue
 			}
@@ -155,6 +164,9 @@ func tspRun(c *Ctx, upto int, each func(i int, e tspEntry) int) (plans, weightSe
 		big = append(big, 47, 65, 128, 150, 200)
 	}
 	for k, n := range big {
+		if over() {
+			return
+		}
 		wn := []string{"sum", "huge", "neg"}[k%3]
 		base := tspPlan{N: n, W: wn, At: 0, Kind: "fail"}
 		W := do(base, false)
@@ -162,6 +174,9 @@ func tspRun(c *Ctx, upto int, each func(i int, e tspEntry) int) (plans, weightSe
 		do(base, true)
 		plans++
 		for _, at := range []int{4, W / 2, W - 1, W, W + 1} {
+			if over() {
+				return
+			}
 			do(tspPlan{N: n, W: wn, At: at, Kind: []string{"fail", "short"}[at%2], Perm: false}, true)
 			plans++
 			weightSection++
